@@ -12,7 +12,7 @@ HERE="$(cd "$(dirname "$0")" && pwd)"
 export GOFLAGS=-mod=mod GOPROXY=off GOSUMDB=off GOTOOLCHAIN=local CGO_ENABLED=1
 export VERIF_ROOT="${VERIF_ROOT:-$HERE}"
 REPO="${VERIF_REPO:-/repo}"
-BUILD="$HERE/.build"
+BUILD="${VERIF_BUILD_DIR:-$HERE/.build}"
 mkdir -p "$BUILD" "$HERE/evidence"
 id=$(echo "$ID" | tr 'A-Z' 'a-z')
 
